@@ -557,7 +557,7 @@ impl Engine for ObjEngine {
             // only families whose methods are integer-coded (or deliberately not): a crash in this
             // focus is attributable to the int-result plumbing
             "intres" => vec!["IntRes", "IntRes", "IntResMixed", "IntResMixed", "ChildrenMore", "Debug", "Display"],
-            "ctx" => vec!["Children", "Children", "ChildrenMore", "GrpB", "GrpB", "GrpC", "Consume", "Basic", "GrpA", "GrpD", "Dup"],
+            "ctx" => vec!["Children", "Children", "ChildrenMore", "GrpB", "GrpB", "GrpC", "Consume", "Basic", "GrpA", "GrpD", "Dup", "Lend", "Lend", "FwdKV"],
             _ => (0..N_FAMILIES).map(family_name).collect(),
         };
         let fam_pool: Vec<i64> = names.iter().map(|n| fam(n)).collect();
